@@ -27,6 +27,8 @@ META = {
 
 META['explanation'] += ' ' + "R1 accepts save / swap / restore of class level state only on a class named in the source. R4: observers return copies, never the object's own mutable containers."
 
+META['explanation'] += ' ' + 'R6: a mutable container in a class body is never the fallback of an attribute the instances bind themselves (with a built-in example decided on every run).'
+
 OBSERVERS = ['compose', 'ja3', 'hassh', 'hassh_server', 'fingerprints', 'key_bytes', 'key_tag', 'host_key_asdict',
              '_asdict', 'as_json', '_as_markdown', 'as_markdown', '__str__', '__eq__', '__lt__', '__hash__', 'identifier',
              '_markdown_result', '_markdown_result_complex', '_markdown_human_readable_names', '_markdown_result_list',
